@@ -30,6 +30,7 @@ import (
 	"errors"
 	"fmt"
 	"math/rand"
+	"net"
 	"os"
 	"os/exec"
 	"path/filepath"
@@ -49,6 +50,7 @@ import (
 	"github.com/lightningnetwork/lnd/chainntnfs"
 	"github.com/lightningnetwork/lnd/channeldb"
 	"github.com/lightningnetwork/lnd/fn/v2"
+	graphdb "github.com/lightningnetwork/lnd/graph/db"
 	"github.com/lightningnetwork/lnd/htlcswitch/hop"
 	"github.com/lightningnetwork/lnd/input"
 	"github.com/lightningnetwork/lnd/kvdb"
@@ -106,6 +108,14 @@ type c13Env struct {
 	fullyClosed   bool
 	marks         int
 	wiped         bool
+	// the REAL channeldb ChainArbitrator.ResolveContract marks the channel
+	// fully closed in; markArmed: the next committed transaction on it is
+	// that write (a stop point), issued by incarnation markEp
+	chanDB    *channeldb.DB
+	// ChainArbitrator.resolveContracts handles the resolution signals one by one
+	resolveMu sync.Mutex
+	markArmed bool
+	markEp    int
 	finalHtlcs    map[uint64]bool
 	preimages     map[lntypes.Hash]lntypes.Preimage
 	reports       []string
@@ -320,6 +330,83 @@ func (d *c13DB) Update(f func(tx walletdb.ReadWriteTx) error, reset func()) erro
 	return nil
 }
 
+// c13MarkDB is the backend of the real channeldb used by the real
+// ChainArbitrator.ResolveContract: its MarkChanFullyClosed transaction is a
+// durable write of the final step, hence a stop point of its own.
+type c13MarkDB struct {
+	walletdb.DB
+	env *c13Env
+}
+
+func (d *c13MarkDB) Update(f func(tx walletdb.ReadWriteTx) error, reset func()) error {
+	e := d.env
+	e.mu.Lock()
+	armed, ep := e.markArmed, e.markEp
+	e.mu.Unlock()
+	if !armed {
+		return d.DB.Update(f, reset)
+	}
+	e.touch()
+	e.wmu.Lock()
+	defer e.wmu.Unlock()
+	if !e.isAlive(ep) {
+		return c13ErrCrashed
+	}
+	if err := d.DB.Update(f, reset); err != nil {
+		return err
+	}
+	e.mu.Lock()
+	e.fullyClosed = true
+	e.marks++
+	e.mu.Unlock()
+	e.afterWrite(ep, fmt.Sprintf("E # ep=%d markfullyclosed", ep))
+	return nil
+}
+
+// c13ClosedSummary returns the serialized pending close summary of a real test
+// channel (built once per process), to be stored under the arbitrator's channel
+// point in each case's channeldb.
+var (
+	c13SummaryOnce  sync.Once
+	c13SummaryBytes []byte
+)
+
+func c13ClosedSummary(t *testing.T) []byte {
+	c13SummaryOnce.Do(func() {
+		db := channeldb.OpenForTesting(t, t.TempDir())
+		ch, _, err := lnwallet.CreateTestChannels(t, channeldb.SingleFunderTweaklessBit)
+		if err != nil {
+			t.Fatalf("test channel: %v", err)
+		}
+		st := ch.State()
+		st.Db = db.ChannelStateDB()
+		addr := &net.TCPAddr{IP: net.ParseIP("127.0.0.1"), Port: 18556}
+		if err := st.SyncPending(addr, 101); err != nil {
+			t.Fatalf("sync pending: %v", err)
+		}
+		err = st.CloseChannel(&channeldb.ChannelCloseSummary{
+			ChanPoint: st.FundingOutpoint, RemotePub: st.IdentityPub,
+			CloseType: channeldb.LocalForceClose, IsPending: true,
+		})
+		if err != nil {
+			t.Fatalf("close channel: %v", err)
+		}
+		var key bytes.Buffer
+		_ = graphdb.WriteOutpoint(&key, &st.FundingOutpoint)
+		_ = kvdb.View(db.Backend, func(tx kvdb.RTx) error {
+			b := tx.ReadBucket([]byte("closed-chan-bucket"))
+			if b != nil {
+				c13SummaryBytes = append([]byte(nil), b.Get(key.Bytes())...)
+			}
+			return nil
+		}, func() {})
+		if len(c13SummaryBytes) == 0 {
+			t.Fatalf("no close summary")
+		}
+	})
+	return c13SummaryBytes
+}
+
 // nurserySnapshot prints the durable state of the utxo nursery store.
 func (e *c13Env) nurserySnapshot() string {
 	if e.nurseryObs == nil {
@@ -369,6 +456,20 @@ type c13Log struct {
 	ArbitratorLog
 	env *c13Env
 	ep  int
+}
+
+// WipeHistory: from here on the log no longer shows the last state reached.
+func (l *c13Log) WipeHistory() error {
+	l.env.mu.Lock()
+	l.env.wiped = true
+	l.env.mu.Unlock()
+	err := l.ArbitratorLog.WipeHistory()
+	if err != nil {
+		l.env.mu.Lock()
+		l.env.wiped = false
+		l.env.mu.Unlock()
+	}
+	return err
 }
 
 func (l *c13Log) CommitState(s ArbitratorState) error {
@@ -1006,6 +1107,29 @@ func c13NewEnv(t *testing.T, dir string, scn *c13Scenario, crashAt []int) *c13En
 		t.Fatalf("observer: %v", err)
 	}
 	e.observer = obs
+	// the real channeldb with the channel's (pending) close summary
+	cdbBackend, err := kvdb.Create(kvdb.BoltBackendName, filepath.Join(dir, "chan.db"), true,
+		kvdb.DefaultDBTimeout, false)
+	if err != nil {
+		t.Fatalf("chan db: %v", err)
+	}
+	e.chanDB, err = channeldb.CreateWithBackend(&c13MarkDB{DB: cdbBackend, env: e})
+	if err != nil {
+		t.Fatalf("channeldb: %v", err)
+	}
+	sum := c13ClosedSummary(t)
+	err = kvdb.Update(cdbBackend, func(tx kvdb.RwTx) error {
+		b, err := tx.CreateTopLevelBucket([]byte("closed-chan-bucket"))
+		if err != nil {
+			return err
+		}
+		var key bytes.Buffer
+		_ = graphdb.WriteOutpoint(&key, &wire.OutPoint{})
+		return b.Put(key.Bytes(), sum)
+	}, func() {})
+	if err != nil {
+		t.Fatalf("close summary: %v", err)
+	}
 	if scn.realNursery {
 		e.nurseryObs, err = NewNurseryStore(&chainhash.Hash{}, &channeldb.DB{Backend: db})
 		if err != nil {
@@ -1034,6 +1158,10 @@ func (r *c13Run) start() {
 	// previous incarnation and has not confirmed must be offered again.
 	e.offered = map[wire.OutPoint]bool{}
 	closed := e.fullyClosed
+	if !closed {
+		// a new arbitrator will write the log again
+		e.wiped = false
+	}
 	pending, ctype, cheight, h := e.pendingClose, e.closeType, e.closingHeight, e.height
 	e.mu.Unlock()
 
@@ -1163,6 +1291,8 @@ func (r *c13Run) start() {
 		e.resolveWG.Add(1)
 		go func() {
 			defer e.resolveWG.Done()
+			e.resolveMu.Lock()
+			defer e.resolveMu.Unlock()
 			e.mu.Lock()
 			already := e.fullyClosed
 			e.mu.Unlock()
@@ -1171,22 +1301,22 @@ func (r *c13Run) start() {
 				// fully closed: nothing left to do.
 				return
 			}
-			err := e.envWrite(ep, "markfullyclosed", func() {
-				e.fullyClosed = true
-				e.marks++
-			})
-			if err != nil {
-				return
-			}
-			_ = arb.Stop()
+			// the REAL ChainArbitrator.ResolveContract: MarkChanFullyClosed
+			// on the real channeldb (stop point, c13MarkDB), Stop, and
+			// WipeHistory on the real bolt log (stop point) - in the
+			// order the code under test performs them.
 			e.mu.Lock()
-			e.wiped = true
+			e.markArmed, e.markEp = true, ep
 			e.mu.Unlock()
-			if err := arb.log.WipeHistory(); err != nil {
-				e.mu.Lock()
-				e.wiped = false
-				e.mu.Unlock()
+			ca := &ChainArbitrator{
+				chanSource:     e.chanDB,
+				activeChannels: map[wire.OutPoint]*ChannelArbitrator{arb.cfg.ChanPoint: arb},
+				activeWatchers: map[wire.OutPoint]*chainWatcher{},
 			}
+			_ = ca.ResolveContract(arb.cfg.ChanPoint)
+			e.mu.Lock()
+			e.markArmed = false
+			e.mu.Unlock()
 		}()
 	}
 
